@@ -5,6 +5,7 @@
 -/
 import Bashlex.Props.C02.Cmd
 import Bashlex.Props.C02.TokG
+import Bashlex.Props.C02.TokNum
 import Bashlex.Props.C02.SeqOps
 import Bashlex.Props.C02.TokRedir
 
@@ -138,6 +139,9 @@ structure TermG (ts : Nat) : Prop where
   r119 : Tab.T.action 119 ts = some (.reduce 14)
   r120 : Tab.T.action 120 ts = some (.reduce 19)
   a34 : Tab.T.action 34 ts = some (.reduce 53)
+  r165 : Tab.T.action 165 ts = some (.reduce 15)
+  r166 : Tab.T.action 166 ts = some (.reduce 16)
+  r167 : Tab.T.action 167 ts = some (.reduce 20)
 
 theorem Item.red13 (it : Item) {ts : Nat} (h : TermG ts) :
     Tab.T.action it.sh13 ts = some (.reduce it.prod) := by
@@ -151,27 +155,30 @@ theorem Item.redB (it : Item) {ts : Nat} (h : TermG ts) :
   · exact h.a33
 
 theorem termG24 : TermG 24 :=
-  ⟨⟨Tab.a29w, Tab.a17w, Tab.a75w, Tab.a74w⟩, Tab.a33w, Tab.a118w, Tab.a119w, Tab.a120w, Tab.a34w⟩
+  ⟨⟨Tab.a29w, Tab.a17w, Tab.a75w, Tab.a74w⟩, Tab.a33w, Tab.a118w, Tab.a119w, Tab.a120w, Tab.a34w, Tab.a165w, Tab.a166w, Tab.a167w⟩
 theorem termG25 : TermG 25 :=
-  ⟨⟨Tab.a29A, Tab.a17A, Tab.a75A, Tab.a74A⟩, Tab.a33A, Tab.a118A, Tab.a119A, Tab.a120A, Tab.a34A⟩
+  ⟨⟨Tab.a29A, Tab.a17A, Tab.a75A, Tab.a74A⟩, Tab.a33A, Tab.a118A, Tab.a119A, Tab.a120A, Tab.a34A, Tab.a165A, Tab.a166A, Tab.a167A⟩
 theorem termG57 : TermG 57 :=
-  ⟨⟨Tab.a29g, Tab.a17g, Tab.a75g, Tab.a74g⟩, Tab.a33g, Tab.a118g, Tab.a119g, Tab.a120g, Tab.a34g⟩
+  ⟨⟨Tab.a29g, Tab.a17g, Tab.a75g, Tab.a74g⟩, Tab.a33g, Tab.a118g, Tab.a119g, Tab.a120g, Tab.a34g, Tab.a165g, Tab.a166g, Tab.a167g⟩
 theorem termG56 : TermG 56 :=
-  ⟨⟨Tab.a29l, Tab.a17l, Tab.a75l, Tab.a74l⟩, Tab.a33l, Tab.a118l, Tab.a119l, Tab.a120l, Tab.a34l⟩
+  ⟨⟨Tab.a29l, Tab.a17l, Tab.a75l, Tab.a74l⟩, Tab.a33l, Tab.a118l, Tab.a119l, Tab.a120l, Tab.a34l, Tab.a165l, Tab.a166l, Tab.a167l⟩
 theorem termG33 : TermG 33 :=
-  ⟨⟨Tab.a29G, Tab.a17G, Tab.a75G, Tab.a74G⟩, Tab.a33G, Tab.a118G, Tab.a119G, Tab.a120G, Tab.a34G⟩
+  ⟨⟨Tab.a29G, Tab.a17G, Tab.a75G, Tab.a74G⟩, Tab.a33G, Tab.a118G, Tab.a119G, Tab.a120G, Tab.a34G, Tab.a165G, Tab.a166G, Tab.a167G⟩
+theorem termG27 : TermG 27 :=
+  ⟨⟨Tab.a29N, Tab.a17N, Tab.a75N, Tab.a74N⟩, Tab.a33N, Tab.a118N, Tab.a119N, Tab.a120N, Tab.a34N,
+    Tab.a165N, Tab.a166N, Tab.a167N⟩
 theorem Item.termG (it : Item) : TermG it.sym := by
   cases it
   · exact termG24
   · exact termG25
-theorem termGNL : TermG 55 := ⟨termNL.w, Tab.a33n, Tab.a118n, Tab.a119n, Tab.a120n, Tab.a34n⟩
+theorem termGNL : TermG 55 := ⟨termNL.w, Tab.a33n, Tab.a118n, Tab.a119n, Tab.a120n, Tab.a34n, Tab.a165n, Tab.a166n, Tab.a167n⟩
 theorem termGBAR : TermG 52 :=
-  ⟨⟨Tab.a29b, Tab.a17b, Tab.a75b, Tab.a74b⟩, Tab.a33b, Tab.a118b, Tab.a119b, Tab.a120b, Tab.a34b⟩
+  ⟨⟨Tab.a29b, Tab.a17b, Tab.a75b, Tab.a74b⟩, Tab.a33b, Tab.a118b, Tab.a119b, Tab.a120b, Tab.a34b, Tab.a165b, Tab.a166b, Tab.a167b⟩
 theorem Op.termG (o : Op) : TermG o.sym := by
   cases o
-  · exact ⟨termSEMI.w, Tab.a33s, Tab.a118s, Tab.a119s, Tab.a120s, Tab.a34s⟩
-  · exact ⟨termAND.w, Tab.a33a, Tab.a118a, Tab.a119a, Tab.a120a, Tab.a34a⟩
-  · exact ⟨termOR.w, Tab.a33o, Tab.a118o, Tab.a119o, Tab.a120o, Tab.a34o⟩
+  · exact ⟨termSEMI.w, Tab.a33s, Tab.a118s, Tab.a119s, Tab.a120s, Tab.a34s, Tab.a165s, Tab.a166s, Tab.a167s⟩
+  · exact ⟨termAND.w, Tab.a33a, Tab.a118a, Tab.a119a, Tab.a120a, Tab.a34a, Tab.a165a, Tab.a166a, Tab.a167a⟩
+  · exact ⟨termOR.w, Tab.a33o, Tab.a118o, Tab.a119o, Tab.a120o, Tab.a34o, Tab.a165o, Tab.a166o, Tab.a167o⟩
 
 /-! ## acceptability bookkeeping -/
 
@@ -467,6 +474,49 @@ theorem termG (o : ROp) : TermG o.sym := by
   · exact termG56
   · exact termG33
 theorem txt_pos (o : ROp) : 0 < o.txt.length := by cases o <;> decide
+def n1 : ROp → Nat
+  | gt => 99 | lt => 100 | gg => 101
+def n2 : ROp → Nat
+  | gt => 165 | lt => 166 | gg => 167
+def nprod : ROp → Nat
+  | gt => 15 | lt => 16 | gg => 20
+theorem a43 (o : ROp) : Tab.T.action 43 o.sym = some (.shift o.n1) := by
+  cases o
+  · exact Tab.a43g
+  · exact Tab.a43l
+  · exact Tab.a43G
+theorem dn1 (o : ROp) : Tab.T.dflt o.n1 = none := by
+  cases o
+  · exact Tab.d99
+  · exact Tab.d100
+  · exact Tab.d101
+theorem dn2 (o : ROp) : Tab.T.dflt o.n2 = none := by
+  cases o
+  · exact Tab.d165
+  · exact Tab.d166
+  · exact Tab.d167
+theorem nen1 (o : ROp) : (o.n1 == 0) = false := by cases o <;> rfl
+theorem nen2 (o : ROp) : (o.n2 == 0) = false := by cases o <;> rfl
+theorem an1w (o : ROp) : Tab.T.action o.n1 24 = some (.shift o.n2) := by
+  cases o
+  · exact Tab.a99w
+  · exact Tab.a100w
+  · exact Tab.a101w
+theorem npp (o : ROp) : Tab.T.prods[o.nprod]? = some (62, [27, o.sym, 24]) := by
+  cases o
+  · exact Tab.p15
+  · exact Tab.p16
+  · exact Tab.p20
+theorem nfp (o : ROp) : Gen.prodFuncs.getD o.nprod "" = "p_redirection" := by
+  cases o
+  · exact Tab.f15
+  · exact Tab.f16
+  · exact Tab.f20
+theorem redn2 (o : ROp) {ts : Nat} (h : TermG ts) : Tab.T.action o.n2 ts = some (.reduce o.nprod) := by
+  cases o
+  · exact h.r165
+  · exact h.r166
+  · exact h.r167
 end ROp
 
 /-- an element of a command after its first item: an item, or a redirection `op w` (blanks
@@ -474,67 +524,104 @@ end ROp
 inductive Elem where
   | simple (it : Item)
   | redir (op : ROp) (g2 : Str) (w : Str)
+  | nredir (n : Str) (op : ROp) (g2 : Str) (w : Str)
   deriving DecidableEq, Repr
 
 namespace Elem
 def text : Elem → Str
   | simple it => it.text
   | redir o g2 w => o.txt ++ g2 ++ w
+  | nredir n o g2 w => n ++ o.txt ++ g2 ++ w
 def node (a : Nat) : Elem → Node
   | simple it => it.node a
   | redir o g2 w =>
     Node.redirect (a, a + o.txt.length + g2.length + w.length) .none o.txt
       (some (Node.word (a + o.txt.length + g2.length, a + o.txt.length + g2.length + w.length) w []))
       .none none none
+  | nredir n o g2 w =>
+    Node.redirect (a, a + n.length + o.txt.length + g2.length + w.length) (.num (digitsToNat n)) o.txt
+      (some (Node.word (a + n.length + o.txt.length + g2.length,
+        a + n.length + o.txt.length + g2.length + w.length) w []))
+      .none none none
 /-- its first token -/
 def tok (a : Nat) : Elem → Token
   | simple it => it.tok a
   | redir o _ _ => o.tok a
+  | nredir n _ _ _ => numTok a (a + n.length) n
 def sym : Elem → Nat
   | simple it => it.sym
   | redir o _ _ => o.sym
+  | nredir _ _ _ _ => 27
 /-- the length of the text of its first token, and the rest of its text -/
 def tlen : Elem → Nat
   | simple it => it.text.length
   | redir o _ _ => o.txt.length
+  | nredir n _ _ _ => n.length
 def rest : Elem → Str
   | simple _ => []
   | redir _ g2 w => g2 ++ w
+  | nredir _ o g2 w => o.txt ++ g2 ++ w
 def after : Elem → Bool
   | simple it => it.after
   | redir _ _ _ => false
+  | nredir _ _ _ _ => false
 def cost : Elem → Nat
   | simple _ => 3
   | redir _ _ _ => 5
+  | nredir _ _ _ _ => 6
 def OK (pos : Bool) : Elem → Prop
   | simple it => it.OK pos
   | redir _ g2 w => Blank g2 ∧ GenWord w
+  | nredir n _ g2 w => DigWord n ∧ Blank g2 ∧ GenWord w
 instance (pos : Bool) (el : Elem) : Decidable (el.OK pos) := by
   cases el <;> (unfold OK; exact inferInstance)
+def shB : Elem → Nat
+  | simple it => it.shB
+  | redir o _ _ => o.s1
+  | nredir _ _ _ _ => 43
+theorem sym_ne_end (el : Elem) : (el.sym == Tab.T.endTok) = false := by
+  cases el with
+  | simple it => exact it.sym_ne_end
+  | redir o g2 w => cases o <;> rfl
+  | nredir n o g2 w => rfl
+theorem sym_ne_nl (el : Elem) : (el.sym == Tab.T.nlTok) = false := by
+  cases el with
+  | simple it => exact it.sym_ne_nl
+  | redir o g2 w => cases o <;> rfl
+  | nredir n o g2 w => rfl
+theorem cost_ge (el : Elem) : 3 ≤ el.cost := by cases el <;> simp [cost]
 theorem tok_sym (el : Elem) (a : Nat) : symOfTok (el.tok a) = el.sym := by
   cases el with
   | simple it => exact Item.tok_sym it a
   | redir o g2 w => exact ROp.tok_sym o a
+  | nredir n o g2 w => exact Tab.symNUM
 theorem tok_hist (el : Elem) (a : Nat) : histOK (el.tok a) = true := by
   cases el with
   | simple it => exact Item.tok_hist it a
   | redir o g2 w => exact ROp.tok_hist o a
+  | nredir n o g2 w => rfl
 theorem termG (el : Elem) : TermG el.sym := by
   cases el with
   | simple it => exact it.termG
   | redir o g2 w => exact o.termG
+  | nredir n o g2 w => exact termG27
 theorem text_len (el : Elem) : el.text.length = el.tlen + el.rest.length := by
-  cases el <;> simp [text, tlen, rest]
+  cases el <;> simp [text, tlen, rest, Nat.add_assoc]
 theorem nodePos_node (el : Elem) (a : Nat) : nodePos (el.node a) = pure (a, a + el.text.length) := by
   cases el with
   | simple it => exact Item.nodePos_node it a
   | redir o g2 w =>
     show pure (a, a + o.txt.length + g2.length + w.length) = pure (a, a + (o.txt ++ g2 ++ w).length)
     simp [Nat.add_assoc]
+  | nredir n o g2 w =>
+    show pure (a, a + n.length + o.txt.length + g2.length + w.length) =
+      pure (a, a + (n ++ o.txt ++ g2 ++ w).length)
+    simp [Nat.add_assoc]
 theorem text_pos {pos : Bool} {el : Elem} (h : el.OK pos) : 0 < el.text.length := by
   cases el with
   | simple it => exact List.length_pos_iff.mpr (Item.gen h).1
   | redir o g2 w => have := o.txt_pos; simp [text]; omega
+  | nredir n o g2 w => have := o.txt_pos; simp [text]; omega
 end Elem
 
 /-! ## lists of elements -/
@@ -638,13 +725,14 @@ theorem tot_nextToken_elem {l : Local} {b : Char} {g rest : Str} {i : Nat}
     (hl : POK l) (hok : el.OK pos) (hacc : assignmentAcceptable (shiftH l) l.currentToken = pos)
     (h1 : histOK l.currentToken = true) (hb : endChar b = true) (hg : Blank g)
     (hL : L.drop i = g ++ el.text ++ b :: rest) (hlen : L.length + 2 ≤ 1073741824)
-    (hres : reservedWordAcceptable (shiftH l) l.currentToken = false)
+    (hres : ∀ it, el = .simple it → reservedWordAcceptable (shiftH l) l.currentToken = true →
+      reservedFirstCommandChars.lookup it.text = none)
     (h : ∀ l'', POK l'' → l''.currentToken = el.tok (i + g.length) →
       P (el.tok (i + g.length)) l'' ⟨L, i + g.length + el.tlen, adn⟩) :
     Tot nextToken l ⟨L, i, adn⟩ P := by
   cases el with
   | simple it =>
-    exact tot_nextToken_item hl hok hacc h1 hb hg hL hlen (fun h' => by rw [hres] at h'; cases h')
+    exact tot_nextToken_item hl hok hacc h1 hb hg hL hlen (hres it rfl)
       (h _ (hl.afterTok h1 _) rfl)
   | redir o g2 w =>
     obtain ⟨d, r, hd, hdw⟩ := redir_head hok.1 hok.2 (b :: rest)
@@ -662,6 +750,25 @@ theorem tot_nextToken_elem {l : Local} {b : Char} {g rest : Str} {i : Nat}
       have hL' : L.drop i = g ++ '>' :: '>' :: (g2 ++ w ++ b :: rest) := by
         rw [hL]; simp [Elem.text, ROp.txt]
       exact tot_nextToken_gg hl.wok hl.dp hg hL' hlen (h _ (hl.afterNL h1 _) rfl)
+  | nredir n o g2 w =>
+    obtain ⟨d, r, hd, hdw⟩ := redir_head hok.2.1 hok.2.2 (b :: rest)
+    obtain ⟨d1, d2, d3, d4, d5, d6⟩ := bw_ne hdw
+    cases o with
+    | gt =>
+      have hL' : L.drop i = g ++ n ++ '>' :: d :: r := by
+        rw [hL, ← hd]; simp [Elem.text, ROp.txt]
+      exact tot_nextToken_num hl.wok h1 hok.1 (b := '>') rfl d6 d5 hg hL' hlen
+        (h _ (hl.afterTok h1 _) rfl)
+    | lt =>
+      have hL' : L.drop i = g ++ n ++ '<' :: d :: r := by
+        rw [hL, ← hd]; simp [Elem.text, ROp.txt]
+      exact tot_nextToken_num hl.wok h1 hok.1 (b := '<') rfl d6 d5 hg hL' hlen
+        (h _ (hl.afterTok h1 _) rfl)
+    | gg =>
+      have hL' : L.drop i = g ++ n ++ '>' :: '>' :: (g2 ++ w ++ b :: rest) := by
+        rw [hL]; simp [Elem.text, ROp.txt]
+      exact tot_nextToken_num hl.wok h1 hok.1 (b := '>') rfl (by decide) (by decide) hg hL' hlen
+        (h _ (hl.afterTok h1 _) rfl)
 
 end
 
@@ -774,6 +881,89 @@ theorem elem_step (hbase : topState base = b) (hB : BaseW b) (hlen : L.length + 
         a + o.txt.length + g2.length + w.length := hend
     rw [hlx, hvs, hend']
     exact hk' _
+  | nredir n o g2 w =>
+    show Tot (engineLoop np (f' + 6) _) _ _ _
+    have hwok : (Item.word w).OK false := ⟨hok.2.2, fun h => by cases h⟩
+    have etl : (Elem.nredir n o g2 w).tlen = n.length := rfl
+    simp only [etl] at hLr ⊢
+    have hLo : L.drop (a + n.length) = [] ++ (Elem.redir o g2 w).text ++ bb :: r' := by
+      simpa [Elem.tlen, Elem.rest, Elem.text] using hLr
+    have hLw0 := drop_into hLo
+    have hLw : L.drop (a + n.length + o.txt.length) = g2 ++ (Item.word w).text ++ bb :: r' := by
+      simpa [Elem.tlen, Elem.rest, Item.text] using hLw0
+    refine Tot.loop_step ?_
+    refine R_shift Tab.d13 rfl Tab.a13N ?_
+    refine Tot.loop_step ?_
+    refine R_fetch Tab.d43 ?_
+    refine tot_nextToken_elem (g := []) (pos := assignmentAcceptable (shiftH l) l.currentToken) hl
+      (show (Elem.redir o g2 w).OK _ from ⟨hok.2.1, hok.2.2⟩) rfl hcurh hbb (fun _ h => by cases h) hLo hlen
+      (fun it e => by cases e) ?_
+    intro l1 hl1 hcur1
+    have hcur1' : l1.currentToken = o.tok (a + n.length) := by simpa [Elem.tok] using hcur1
+    have hcurh1 : histOK l1.currentToken = true := by rw [hcur1']; exact ROp.tok_hist o _
+    have hacc1 : assignmentAcceptable (shiftH l1) l1.currentToken = false := by
+      rw [hcur1']; exact acc_op o _ ⟨hl1.ps.cp, hl1.ps.rl, hl1.ps.ca⟩ hl1.hist
+    have ep : a + n.length + ([] : Str).length + (Elem.redir o g2 w).tlen = a + n.length + o.txt.length := by
+      simp [Elem.tlen]
+    rw [ep, Elem.tok_sym]
+    refine R_shift Tab.d43 rfl o.a43 ?_
+    refine Tot.loop_step ?_
+    refine R_fetch o.dn1 ?_
+    refine tot_nextToken_item hl1 hwok hacc1 hcurh1 hbb hok.2.1 hLw hlen ?_ ?_
+    · intro h'
+      rw [hcur1', racc_op o _ (l := shiftH l1) hl1.hist] at h'
+      cases h'
+    rw [Item.tok_sym]
+    refine R_shift o.dn1 o.nen1 o.an1w ?_
+    refine Tot.loop_step ?_
+    refine R_fetch o.dn2 ?_
+    have e1 : a + (Elem.nredir n o g2 w).text.length =
+        a + n.length + o.txt.length + g2.length + (Item.word w).text.length := by
+      simp [Elem.text, Item.text]; omega
+    rw [e1] at hnext
+    refine hnext _ _ (hl1.afterTok hcurh1 _) ⟨.word w, false, _, hwok, rfl, rfl⟩ ?_
+    intro l'' hl'' hcur''
+    rw [hts]
+    refine R_reduce o.dn2 o.nen2 (o.redn2 hT) o.npp rfl Tab.g13_62 o.nfp ?_
+    refine act_redirN (k := digitsToNat n)
+      (wn := Node.word (a + n.length + o.txt.length + g2.length,
+        a + n.length + o.txt.length + g2.length + w.length) w [])
+      ?_ rfl (fun Q hQ => ?_) ?_
+    · show (genTok _ _ w false).is .WORD = true
+      unfold genTok; split <;> rfl
+    · have hv : (Item.tok (a + n.length + o.txt.length + g2.length) (.word w)).valueStr = w := by
+        show (genTok _ _ w false).valueStr = w
+        unfold genTok; split <;> rfl
+      have hp : (Item.tok (a + n.length + o.txt.length + g2.length) (.word w)).pos =
+          some (a + n.length + o.txt.length + g2.length,
+            a + n.length + o.txt.length + g2.length + w.length) := by
+        show (genTok _ _ w false).pos = _
+        unfold genTok; split <;> rfl
+      have hq : (Item.tok (a + n.length + o.txt.length + g2.length) (.word w)).flags.contains .QUOTED
+          = false := by
+        show (genTok _ _ w false).flags.contains .QUOTED = false
+        unfold genTok; split <;> rfl
+      exact tot_expandword_gen hok.2.2 hv hp hq hQ
+    simp only [Bool.false_eq_true, if_false]
+    refine Tot.loop_step ?_
+    refine R_reduce Tab.d34 rfl hT.a34 Tab.p53 rfl Tab.g13_63 Tab.f53 ?_
+    refine act_sce_node ?_
+    simp only [Bool.false_eq_true, if_false]
+    refine Tot.loop_step ?_
+    refine R_reduce Tab.d74 rfl hT.w.a74 Tab.p57 rfl (by rw [hbase]; exact hB.g65) Tab.f57 ?_
+    refine act_sc2 ?_
+    simp only [Bool.false_eq_true, if_false]
+    have hk' := fun tr9 cons9 => hk tr9 nl cons9 l'' hl'' hcur''
+    have hend : (Item.tok (a + n.length + o.txt.length + g2.length) (.word w)).endlexpos =
+        a + n.length + o.txt.length + g2.length + w.length := by
+      show (genTok _ _ w false).endlexpos = _
+      unfold genTok; split <;> rfl
+    simp only [Elem.node] at hk'
+    have hlx : (Elem.tok a (Elem.nredir n o g2 w)).lexpos = a := rfl
+    have hvs : ((Elem.redir o g2 w).tok (a + n.length + ([] : Str).length)).valueStr = o.txt :=
+      ROp.tok_valueStr o _
+    rw [hlx, hvs, hend]
+    exact hk' _ _
 
 end
 
@@ -797,7 +987,8 @@ theorem nextTok_elem (hlen : L.length + 2 ≤ 1073741824) {aft : Bool} {el' : El
     rw [hcurL, ← haft]; exact acc_item hokL bL ⟨hl1.ps.cp, hl1.ps.rl, hl1.ps.ca⟩ hl1.hist
   have hres : reservedWordAcceptable (shiftH l1) l1.currentToken = false := by
     rw [hcurL]; exact racc_item hokL bL (l := shiftH l1) hl1.hist
-  exact tot_nextToken_elem hl1 hok' hacc h1 hbb hg hL hlen hres hQ
+  exact tot_nextToken_elem hl1 hok' hacc h1 hbb hg hL hlen
+    (fun _ _ h' => by rw [hres] at h'; cases h') hQ
 
 /-- the elements after the current one (whose first token is in hand in state 13), up to the
     terminator -/
@@ -872,6 +1063,271 @@ theorem g_items13 (hbase : topState base = b) (hB : BaseW b) (hT : TermG ts)
 
 end
 
+/-- what the state under a command does on the first token of the command -/
+structure BaseG (b : Nat) : Prop where
+  w : BaseW b
+  d : Tab.T.dflt b = none
+  a24 : Tab.T.action b 24 = some (.shift 29)
+  a25 : Tab.T.action b 25 = some (.shift 33)
+  a57 : Tab.T.action b 57 = some (.shift 46)
+  a56 : Tab.T.action b 56 = some (.shift 47)
+  a33 : Tab.T.action b 33 = some (.shift 48)
+  g62 : Tab.T.goto b 62 = some 34
+  a27 : Tab.T.action b 27 = some (.shift 43)
+
+theorem baseG0 : BaseG 0 := ⟨base0.w, Tab.d0, Tab.a0w, Tab.a0A, Tab.a0g, Tab.a0l, Tab.a0G, Tab.g0_62, Tab.a0N⟩
+theorem baseG61 : BaseG 61 := ⟨base61.w, Tab.d61, Tab.a61w, Tab.a61A, Tab.a61g, Tab.a61l, Tab.a61G, Tab.g61_62, Tab.a61N⟩
+theorem baseG134 : BaseG 134 := ⟨⟨Tab.g134_63, Tab.g134_65⟩, Tab.d134, Tab.a134w, Tab.a134A, Tab.a134g, Tab.a134l, Tab.a134G, Tab.g134_62, Tab.a134N⟩
+theorem baseG135 : BaseG 135 := ⟨⟨Tab.g135_63, Tab.g135_65⟩, Tab.d135, Tab.a135w, Tab.a135A, Tab.a135g, Tab.a135l, Tab.a135G, Tab.g135_62, Tab.a135N⟩
+theorem baseG136 : BaseG 136 := ⟨⟨Tab.g136_63, Tab.g136_65⟩, Tab.d136, Tab.a136w, Tab.a136A, Tab.a136g, Tab.a136l, Tab.a136G, Tab.g136_62, Tab.a136N⟩
+
+theorem Item.shiftB (it : Item) {b : Nat} (h : BaseG b) :
+    Tab.T.action b it.sym = some (.shift it.shB) := by
+  cases it
+  · exact h.a24
+  · exact h.a25
+
+/-- the states after an operator that takes a `newline_list` (`|`: 64/136, `&&`: 62/134,
+    `||`: 63/135) -/
+structure NLG (s1 s2 : Nat) : Prop where
+  d1 : Tab.T.dflt s1 = none
+  n1 : (s1 == 0) = false
+  r24 : Tab.T.action s1 24 = some (.reduce 167)
+  r25 : Tab.T.action s1 25 = some (.reduce 167)
+  r57 : Tab.T.action s1 57 = some (.reduce 167)
+  r56 : Tab.T.action s1 56 = some (.reduce 167)
+  r33 : Tab.T.action s1 33 = some (.reduce 167)
+  r27 : Tab.T.action s1 27 = some (.reduce 167)
+  g97 : Tab.T.goto s1 97 = some 81
+  g91 : Tab.T.goto s1 91 = some s2
+  n2 : (s2 == 0) = false
+  base : BaseG s2
+
+theorem nlg64 : NLG 64 136 := ⟨Tab.d64, rfl, Tab.a64w, Tab.a64A, Tab.a64g, Tab.a64l, Tab.a64G, Tab.a64N, Tab.g64_97, Tab.g64_91, rfl, baseG136⟩
+theorem nlg62 : NLG 62 134 := ⟨Tab.d62, rfl, Tab.a62w, Tab.a62A, Tab.a62g, Tab.a62l, Tab.a62G, Tab.a62N, Tab.g62_97, Tab.g62_91, rfl, baseG134⟩
+theorem nlg63 : NLG 63 135 := ⟨Tab.d63, rfl, Tab.a63w, Tab.a63A, Tab.a63g, Tab.a63l, Tab.a63G, Tab.a63N, Tab.g63_97, Tab.g63_91, rfl, baseG135⟩
+
+theorem Item.r167 (it : Item) {s1 s2 : Nat} (h : NLG s1 s2) :
+    Tab.T.action s1 it.sym = some (.reduce 167) := by
+  cases it
+  · exact h.r24
+  · exact h.r25
+theorem Item.r146 (it : Item) : Tab.T.action 81 it.sym = some (.reduce 146) := by
+  cases it
+  · exact Tab.a81w
+  · exact Tab.a81A
+
+theorem Elem.shiftB (el : Elem) {b : Nat} (h : BaseG b) :
+    Tab.T.action b el.sym = some (.shift el.shB) := by
+  cases el with
+  | simple it => exact it.shiftB h
+  | redir o g2 w =>
+    cases o
+    · exact h.a57
+    · exact h.a56
+    · exact h.a33
+  | nredir n o g2 w => exact h.a27
+theorem Elem.r167 (el : Elem) {s1 s2 : Nat} (h : NLG s1 s2) :
+    Tab.T.action s1 el.sym = some (.reduce 167) := by
+  cases el with
+  | simple it => exact it.r167 h
+  | redir o g2 w =>
+    cases o
+    · exact h.r57
+    · exact h.r56
+    · exact h.r33
+  | nredir n o g2 w => exact h.r27
+theorem Elem.r146 (el : Elem) : Tab.T.action 81 el.sym = some (.reduce 146) := by
+  cases el with
+  | simple it => exact it.r146
+  | redir o g2 w =>
+    cases o
+    · exact Tab.a81g
+    · exact Tab.a81l
+    · exact Tab.a81G
+  | nredir n o g2 w => exact Tab.a81N
+
+section
+variable {np : NestedParse} {L : Str} {adn : Bool} {P : Res SVal → Local → Tape → Prop}
+  {base : Stack SVal} {b ts : Nat} {term : Token} {iT : Nat}
+
+/-- **the first element of a command**, its first token already shifted over the base; afterwards
+    `simple_command` (state 13) holds its node and the next token is in hand -/
+theorem first_step (hbase : topState base = b) (hB : BaseG b) (hlen : L.length + 2 ≤ 1073741824)
+    {el : Elem} {pos : Bool} {a : Nat} {l : Local} {f' nl : Nat} {cons : List Nat}
+    {tr : Tree} {bb : Char} {r' : Str}
+    (hok : el.OK pos) (hl : POK l) (hcur : l.currentToken = el.tok a)
+    (hLr : L.drop (a + el.tlen) = el.rest ++ bb :: r') (hbb : endChar bb = true)
+    (hT : TermG ts) (hts : symOfTok term = ts)
+    (hnext : NextTok L adn el.after term (a + el.text.length) iT)
+    (hk : ∀ tr' nl' cons' l', POK l' → l'.currentToken = term → Tot (engineLoop np f'
+        { stack := ⟨13, tr', .nodes [el.node a]⟩ :: base,
+          la := some (ts, .tok term), nlShifted := nl', consumed := cons' }) l' ⟨L, iT, adn⟩ P) :
+    Tot (engineLoop np (f' + (el.cost - 1))
+      { stack := ⟨el.shB, tr, .tok (el.tok a)⟩ :: base, la := none,
+        nlShifted := nl, consumed := cons }) l ⟨L, a + el.tlen, adn⟩ P := by
+  have hcurh : histOK l.currentToken = true := by rw [hcur]; exact Elem.tok_hist el a
+  cases el with
+  | simple it =>
+    show Tot (engineLoop np (f' + 2) _) _ _ _
+    refine Tot.loop_step ?_
+    refine R_fetch it.dB ?_
+    refine hnext l _ hl ⟨it, pos, a, hok, hcur, rfl⟩ ?_
+    intro l'' hl'' hcur''
+    rw [hts]
+    refine R_reduce it.dB it.neB (it.redB hT) it.pprod rfl (by rw [hbase]; exact hB.w.g63) it.fprod ?_
+    refine act_item hok ?_
+    simp only [Bool.false_eq_true, if_false]
+    refine Tot.loop_step ?_
+    refine R_reduce Tab.d17 rfl hT.w.a17 Tab.p56 rfl (by rw [hbase]; exact hB.w.g65) Tab.f56 ?_
+    refine act_sc1 ?_
+    simp only [Bool.false_eq_true, if_false]
+    exact hk _ _ _ l'' hl'' hcur''
+  | redir o g2 w =>
+    show Tot (engineLoop np (f' + 4) _) _ _ _
+    have hwok : (Item.word w).OK false := ⟨hok.2, fun h => by cases h⟩
+    have hLw : L.drop (a + o.txt.length) = g2 ++ (Item.word w).text ++ bb :: r' := by
+      simpa [Elem.tlen, Elem.rest, Item.text] using hLr
+    have hacc : assignmentAcceptable (shiftH l) l.currentToken = false := by
+      rw [hcur]; exact acc_op o a ⟨hl.ps.cp, hl.ps.rl, hl.ps.ca⟩ hl.hist
+    refine Tot.loop_step ?_
+    refine R_fetch o.d1 ?_
+    refine tot_nextToken_item hl hwok hacc hcurh hbb hok.1 hLw hlen ?_ ?_
+    · intro h'
+      have hcur' : l.currentToken = o.tok a := hcur
+      rw [hcur', racc_op o a (l := shiftH l) hl.hist] at h'
+      cases h'
+    rw [Item.tok_sym]
+    refine R_shift o.d1 o.ne1 o.a1w ?_
+    refine Tot.loop_step ?_
+    refine R_fetch o.d2 ?_
+    have e1 : a + (Elem.redir o g2 w).text.length = a + o.txt.length + g2.length + (Item.word w).text.length := by
+      simp [Elem.text, Item.text]; omega
+    rw [e1] at hnext
+    refine hnext _ _ (hl.afterTok hcurh _) ⟨.word w, false, _, hwok, rfl, rfl⟩ ?_
+    intro l'' hl'' hcur''
+    rw [hts]
+    refine R_reduce o.d2 o.ne2 (o.red2 hT) o.pp rfl (by rw [hbase]; exact hB.g62) o.fp ?_
+    refine act_redir (wn := Node.word (a + o.txt.length + g2.length, a + o.txt.length + g2.length + w.length) w [])
+      ?_ (fun Q hQ => ?_) ?_
+    · show (genTok _ _ w false).is .WORD = true
+      unfold genTok; split <;> rfl
+    · have hv : (Item.tok (a + o.txt.length + g2.length) (.word w)).valueStr = w := by
+        show (genTok _ _ w false).valueStr = w
+        unfold genTok; split <;> rfl
+      have hp : (Item.tok (a + o.txt.length + g2.length) (.word w)).pos =
+          some (a + o.txt.length + g2.length, a + o.txt.length + g2.length + w.length) := by
+        show (genTok _ _ w false).pos = _
+        unfold genTok; split <;> rfl
+      have hq : (Item.tok (a + o.txt.length + g2.length) (.word w)).flags.contains .QUOTED = false := by
+        show (genTok _ _ w false).flags.contains .QUOTED = false
+        unfold genTok; split <;> rfl
+      exact tot_expandword_gen hok.2 hv hp hq hQ
+    simp only [Bool.false_eq_true, if_false]
+    refine Tot.loop_step ?_
+    refine R_reduce Tab.d34 rfl hT.a34 Tab.p53 rfl (by rw [hbase]; exact hB.w.g63) Tab.f53 ?_
+    refine act_sce_node ?_
+    simp only [Bool.false_eq_true, if_false]
+    refine Tot.loop_step ?_
+    refine R_reduce Tab.d17 rfl hT.w.a17 Tab.p56 rfl (by rw [hbase]; exact hB.w.g65) Tab.f56 ?_
+    refine act_sc1 ?_
+    simp only [Bool.false_eq_true, if_false]
+    have hk' := fun tr9 => hk tr9 nl (cons ++ [24]) l'' hl'' hcur''
+    have hend : (Item.tok (a + o.txt.length + g2.length) (.word w)).endlexpos =
+        a + o.txt.length + g2.length + w.length := by
+      show (genTok _ _ w false).endlexpos = _
+      unfold genTok; split <;> rfl
+    simp only [Elem.node] at hk'
+    have hlx : (Elem.tok a (Elem.redir o g2 w)).lexpos = a := ROp.tok_lexpos o a
+    have hvs : (Elem.tok a (Elem.redir o g2 w)).valueStr = o.txt := ROp.tok_valueStr o a
+    have hend' : (Item.tok (a + (Elem.redir o g2 w).tlen + g2.length) (.word w)).endlexpos =
+        a + o.txt.length + g2.length + w.length := hend
+    rw [hlx, hvs, hend']
+    exact hk' _
+  | nredir n o g2 w =>
+    show Tot (engineLoop np (f' + 5) _) _ _ _
+    have hwok : (Item.word w).OK false := ⟨hok.2.2, fun h => by cases h⟩
+    have etl : (Elem.nredir n o g2 w).tlen = n.length := rfl
+    simp only [etl] at hLr ⊢
+    have hLo : L.drop (a + n.length) = [] ++ (Elem.redir o g2 w).text ++ bb :: r' := by
+      simpa [Elem.tlen, Elem.rest, Elem.text] using hLr
+    have hLw0 := drop_into hLo
+    have hLw : L.drop (a + n.length + o.txt.length) = g2 ++ (Item.word w).text ++ bb :: r' := by
+      simpa [Elem.tlen, Elem.rest, Item.text] using hLw0
+    refine Tot.loop_step ?_
+    refine R_fetch Tab.d43 ?_
+    refine tot_nextToken_elem (g := []) (pos := assignmentAcceptable (shiftH l) l.currentToken) hl
+      (show (Elem.redir o g2 w).OK _ from ⟨hok.2.1, hok.2.2⟩) rfl hcurh hbb (fun _ h => by cases h) hLo hlen
+      (fun it e => by cases e) ?_
+    intro l1 hl1 hcur1
+    have hcur1' : l1.currentToken = o.tok (a + n.length) := by simpa [Elem.tok] using hcur1
+    have hcurh1 : histOK l1.currentToken = true := by rw [hcur1']; exact ROp.tok_hist o _
+    have hacc1 : assignmentAcceptable (shiftH l1) l1.currentToken = false := by
+      rw [hcur1']; exact acc_op o _ ⟨hl1.ps.cp, hl1.ps.rl, hl1.ps.ca⟩ hl1.hist
+    have ep : a + n.length + ([] : Str).length + (Elem.redir o g2 w).tlen = a + n.length + o.txt.length := by
+      simp [Elem.tlen]
+    rw [ep, Elem.tok_sym]
+    refine R_shift Tab.d43 rfl o.a43 ?_
+    refine Tot.loop_step ?_
+    refine R_fetch o.dn1 ?_
+    refine tot_nextToken_item hl1 hwok hacc1 hcurh1 hbb hok.2.1 hLw hlen ?_ ?_
+    · intro h'
+      rw [hcur1', racc_op o _ (l := shiftH l1) hl1.hist] at h'
+      cases h'
+    rw [Item.tok_sym]
+    refine R_shift o.dn1 o.nen1 o.an1w ?_
+    refine Tot.loop_step ?_
+    refine R_fetch o.dn2 ?_
+    have e1 : a + (Elem.nredir n o g2 w).text.length =
+        a + n.length + o.txt.length + g2.length + (Item.word w).text.length := by
+      simp [Elem.text, Item.text]; omega
+    rw [e1] at hnext
+    refine hnext _ _ (hl1.afterTok hcurh1 _) ⟨.word w, false, _, hwok, rfl, rfl⟩ ?_
+    intro l'' hl'' hcur''
+    rw [hts]
+    refine R_reduce o.dn2 o.nen2 (o.redn2 hT) o.npp rfl (by rw [hbase]; exact hB.g62) o.nfp ?_
+    refine act_redirN (k := digitsToNat n)
+      (wn := Node.word (a + n.length + o.txt.length + g2.length,
+        a + n.length + o.txt.length + g2.length + w.length) w [])
+      ?_ rfl (fun Q hQ => ?_) ?_
+    · show (genTok _ _ w false).is .WORD = true
+      unfold genTok; split <;> rfl
+    · have hv : (Item.tok (a + n.length + o.txt.length + g2.length) (.word w)).valueStr = w := by
+        show (genTok _ _ w false).valueStr = w
+        unfold genTok; split <;> rfl
+      have hp : (Item.tok (a + n.length + o.txt.length + g2.length) (.word w)).pos =
+          some (a + n.length + o.txt.length + g2.length,
+            a + n.length + o.txt.length + g2.length + w.length) := by
+        show (genTok _ _ w false).pos = _
+        unfold genTok; split <;> rfl
+      have hq : (Item.tok (a + n.length + o.txt.length + g2.length) (.word w)).flags.contains .QUOTED
+          = false := by
+        show (genTok _ _ w false).flags.contains .QUOTED = false
+        unfold genTok; split <;> rfl
+      exact tot_expandword_gen hok.2.2 hv hp hq hQ
+    simp only [Bool.false_eq_true, if_false]
+    refine Tot.loop_step ?_
+    refine R_reduce Tab.d34 rfl hT.a34 Tab.p53 rfl (by rw [hbase]; exact hB.w.g63) Tab.f53 ?_
+    refine act_sce_node ?_
+    simp only [Bool.false_eq_true, if_false]
+    refine Tot.loop_step ?_
+    refine R_reduce Tab.d17 rfl hT.w.a17 Tab.p56 rfl (by rw [hbase]; exact hB.w.g65) Tab.f56 ?_
+    refine act_sc1 ?_
+    simp only [Bool.false_eq_true, if_false]
+    have hk' := fun tr9 cons9 => hk tr9 nl cons9 l'' hl'' hcur''
+    have hend : (Item.tok (a + n.length + o.txt.length + g2.length) (.word w)).endlexpos =
+        a + n.length + o.txt.length + g2.length + w.length := by
+      show (genTok _ _ w false).endlexpos = _
+      unfold genTok; split <;> rfl
+    simp only [Elem.node] at hk'
+    have hlx : (Elem.tok a (Elem.nredir n o g2 w)).lexpos = a := rfl
+    have hvs : ((Elem.redir o g2 w).tok (a + n.length + ([] : Str).length)).valueStr = o.txt :=
+      ROp.tok_valueStr o _
+    rw [hlx, hvs, hend]
+    exact hk' _ _
+
+end
+
 /-! ## general simple commands -/
 
 /-- a first word is no reserved word -/
@@ -890,9 +1346,17 @@ theorem Item.nr_lookup {it : Item} (h1 : it.OK true) (h2 : it.nrOK) :
 
 /-- a simple command with its spelling: leading blanks, first item, (gap, item) pairs, trailing
     blanks -/
+def Elem.nrOK : Elem → Prop
+  | .simple it => it.nrOK
+  | .redir _ _ _ => True
+  | .nredir _ _ _ _ => True
+
+instance (el : Elem) : Decidable el.nrOK := by
+  cases el <;> (unfold Elem.nrOK; exact inferInstance)
+
 structure GCmd where
   lead : Str
-  first : Item
+  first : Elem
   items : List (Str × Elem)
   trail : Str
 
@@ -921,7 +1385,7 @@ def endPos (off : Nat) (c : GCmd) : Nat := endJ (off + c.lead.length + c.first.t
 /-- the command node -/
 def node (off : Nat) (c : GCmd) : Node :=
   Node.command (off + c.lead.length, c.endPos off) (c.nodes off)
-def cost (c : GCmd) : Nat := icost c.items
+def cost (c : GCmd) : Nat := icost c.items + (c.first.cost - 3)
 end GCmd
 
 /-- the last node of a command's item list is positioned and ends where the items end -/
@@ -947,12 +1411,12 @@ variable {np : NestedParse} {L : Str} {adn : Bool} {P : Res SVal → Local → T
 
 /-- one general simple command, its first token already shifted over `base`, up to its terminator;
     `k` goes on from `simple_command` (state 13) -/
-theorem g_run13 (hbase : topState base = b) (hB : BaseW b) (hT : TermG ts)
+theorem g_run13 (hbase : topState base = b) (hB : BaseG b) (hT : TermG ts)
     (hts : symOfTok term = ts) (hlen : L.length + 2 ≤ 1073741824)
     {R : Str} {b0 : Char} {r0 : Str} (hR : R = b0 :: r0) (hb0 : endChar b0 = true)
     {c : GCmd} {off : Nat} {l : Local} {fuel f' nl : Nat} {cons : List Nat} {tr : Tree}
     (hc : c.OK) (hl : POK l) (hcur : l.currentToken = c.first.tok (off + c.lead.length))
-    (hL : L.drop (off + c.lead.length + c.first.text.length) = spellJ c.items ++ R)
+    (hL : L.drop (off + c.lead.length + c.first.tlen) = c.first.rest ++ (spellJ c.items ++ R))
     (hfetch : FetchTerm L adn term (c.endPos off) iT)
     (hf : fuel = f' + (c.cost + 2))
     (hk : ∀ tr' nl' cons' l', POK l' → l'.currentToken = term → Tot (engineLoop np f'
@@ -961,60 +1425,65 @@ theorem g_run13 (hbase : topState base = b) (hB : BaseW b) (hT : TermG ts)
     Tot (engineLoop np fuel
       { stack := ⟨c.first.shB, tr, .tok (c.first.tok (off + c.lead.length))⟩ :: base, la := none,
         nlShifted := nl, consumed := cons }) l
-      ⟨L, off + c.lead.length + c.first.text.length, adn⟩ P := by
-  obtain ⟨lead, it, items, trail⟩ := c
+      ⟨L, off + c.lead.length + c.first.tlen, adn⟩ P := by
+  obtain ⟨lead, el, items, trail⟩ := c
   simp only [GCmd.cost, GCmd.endPos, GCmd.nodes] at *
   subst hf
   have hok := hc.first
-  have hcurh : histOK l.currentToken = true := by rw [hcur]; exact Item.tok_hist it _
+  have hge := el.cost_ge
   cases items with
   | nil =>
-    show Tot (engineLoop np (f' + 2) _) _ _ _
-    refine Tot.loop_step ?_
-    refine R_fetch it.dB ?_
-    refine hfetch l _ hl hcurh ?_
-    intro l'' hl'' hcur''
-    rw [hts]
-    refine R_reduce it.dB it.neB (it.redB hT) it.pprod rfl (by rw [hbase]; exact hB.g63) it.fprod ?_
-    refine act_item hok ?_
-    simp only [Bool.false_eq_true, if_false]
-    refine Tot.loop_step ?_
-    refine R_reduce Tab.d17 rfl hT.w.a17 Tab.p56 rfl (by rw [hbase]; exact hB.g65) Tab.f56 ?_
-    refine act_sc1 ?_
-    simp only [Bool.false_eq_true, if_false]
-    have hk' := fun tr' => hk tr' nl cons l'' hl'' hcur''
-    simp only [nodesJ, endJ] at hk'
-    exact hk' _
+    have e : f' + (icost [] + (el.cost - 3) + 2) = f' + (el.cost - 1) := by simp only [icost]; omega
+    rw [e]
+    have hLr : L.drop (off + lead.length + el.tlen) = el.rest ++ b0 :: r0 := by
+      rw [hL, hR]; simp [spellJ]
+    refine first_step hbase hB hlen hok hl hcur hLr hb0 hT hts
+      (nextTok_of_fetch (by simpa [endJ] using hfetch)) ?_
+    intro tr' nl' cons' l' hl' hcur'
+    have := hk tr' nl' cons' l' hl' hcur'
+    simpa [nodesJ] using this
   | cons gel rest =>
     obtain ⟨g, el'⟩ := gel
     obtain ⟨hg, hok', hrest⟩ := hc.items
     obtain ⟨bb, r', hbr, hb⟩ := after_itemJ rest hrest hR hb0
-    have e3 : f' + (icost ((g, el') :: rest) + 2) = (f' + (icost rest + el'.cost)) + 2 := by
+    have e3 : f' + (icost ((g, el') :: rest) + (el.cost - 3) + 2) =
+        (f' + (icost rest + el'.cost)) + (el.cost - 1) := by
       simp only [icost]; omega
     rw [e3]
-    have hL' : L.drop (off + lead.length + it.text.length) = g ++ el'.text ++ bb :: r' := by
-      rw [hL, ← hbr]; simp [spellJ]
-    refine Tot.loop_step ?_
-    refine R_fetch it.dB ?_
-    refine nextTok_elem (adn := adn) hlen hok' hg.2 hL' hb l _ hl ⟨it, true, _, hok, hcur, rfl⟩ ?_
-    intro l'' hl'' hcur''
-    rw [Elem.tok_sym]
-    refine R_reduce it.dB it.neB (it.redB el'.termG) it.pprod rfl (by rw [hbase]; exact hB.g63)
-      it.fprod ?_
-    refine act_item hok ?_
-    simp only [Bool.false_eq_true, if_false]
-    refine Tot.loop_step ?_
-    refine R_reduce Tab.d17 rfl el'.termG.w.a17 Tab.p56 rfl (by rw [hbase]; exact hB.g65) Tab.f56 ?_
-    refine act_sc1 ?_
-    simp only [Bool.false_eq_true, if_false]
-    have hLn : L.drop (off + lead.length + it.text.length + g.length + el'.tlen) =
-        el'.rest ++ (spellJ rest ++ R) :=
-      drop_into (by rw [hL]; simp [spellJ])
-    refine g_items13 hbase hB hT hts hlen hR hb0 rest [it.node (off + lead.length)]
-      (off + lead.length + it.text.length + g.length) el' it.after l'' _ f' nl _ _
-      hok' hrest hl'' hcur'' hLn (by simpa [endJ] using hfetch) rfl ?_
+    obtain ⟨y, g', hgy⟩ : ∃ y g', g = y :: g' := by
+      cases g with
+      | nil => exact absurd rfl hg.1
+      | cons y g' => exact ⟨y, g', rfl⟩
+    have hLr : L.drop (off + lead.length + el.tlen) =
+        el.rest ++ y :: (g' ++ el'.text ++ spellJ rest ++ R) := by
+      rw [hL, hgy]; simp [spellJ]
+    have hLe : L.drop (off + lead.length + el.text.length) = g ++ el'.text ++ bb :: r' := by
+      have := congrArg (List.drop el.rest.length) hL
+      rw [List.drop_drop] at this
+      rw [Elem.text_len, ← Nat.add_assoc, this, ← hbr]
+      simp [spellJ]
+    refine first_step hbase hB hlen hok hl hcur hLr
+      (blank_endChar (hg.2 y (by rw [hgy]; exact List.mem_cons_self ..))) el'.termG (Elem.tok_sym el' _)
+      (nextTok_elem hlen hok' hg.2 hLe hb) ?_
     intro tr' nl' cons' l' hl' hcur'
-    have := hk tr' nl' cons' l' hl' hcur'
+    have hLn : L.drop (off + lead.length + el.text.length + g.length + el'.tlen) =
+        el'.rest ++ (spellJ rest ++ R) := by
+      have := congrArg (List.drop (el.rest.length + (g.length + el'.tlen))) hL
+      rw [List.drop_drop] at this
+      have e5 : off + lead.length + el.text.length + g.length + el'.tlen =
+          off + lead.length + el.tlen + (el.rest.length + (g.length + el'.tlen)) := by
+        rw [Elem.text_len]; omega
+      rw [e5, this]
+      have e6 : el.rest ++ (spellJ ((g, el') :: rest) ++ R) =
+          (el.rest ++ g ++ (el'.text.take el'.tlen)) ++ (el'.rest ++ (spellJ rest ++ R)) := by
+        cases el' <;> simp [spellJ, Elem.text, Elem.tlen, Elem.rest]
+      rw [e6]
+      exact List.drop_left' (by cases el' <;> simp [Elem.text, Elem.tlen]; all_goals omega)
+    refine g_items13 hbase hB.w hT hts hlen hR hb0 rest [el.node (off + lead.length)]
+      (off + lead.length + el.text.length + g.length) el' el.after l' _ f' nl' cons' tr'
+      hok' hrest hl' hcur' hLn (by simpa [endJ] using hfetch) rfl ?_
+    intro tr2 nl2 cons2 l2 hl2 hcur2
+    have := hk tr2 nl2 cons2 l2 hl2 hcur2
     simpa [nodesJ, endJ] using this
 
 /-- the end of a general command: four reductions up to `simple_list1` -/
@@ -1028,11 +1497,11 @@ theorem g_end {l : Local} {Tp : Tape} (hbase : topState base = b) (hB : BaseOK b
       { stack := ⟨13, tr, .nodes (c.nodes off)⟩ :: base, la := some (ts, .tok term), nlShifted := nl,
         consumed := cons }) l Tp P := by
   subst hf
-  obtain ⟨nl', pl, hlast, hpl, hpl2⟩ := gnodes_last (off + c.lead.length) c.first c.items
+  obtain ⟨nl', pl, hlast, hpl, hpl2⟩ := gnodes_lastE (off + c.lead.length) c.first c.items
   refine Tot.loop_step ?_
   refine R_reduce Tab.d13 rfl hT.a13 Tab.p58 rfl (by rw [hbase]; exact hB.g66) Tab.f58 ?_
   refine act_commandG (nh := c.first.node (off + c.lead.length)) rfl hlast
-    (Item.nodePos_node _ _) hpl ?_
+    (Elem.nodePos_node _ _) hpl ?_
   simp only [Bool.false_eq_true, if_false]
   refine Tot.loop_step ?_
   refine R_reduce Tab.d11 rfl hT.a11 Tab.p163 rfl (by rw [hbase]; exact hB.g95) Tab.f163 ?_
@@ -1055,51 +1524,6 @@ end
 
 /-! ## fetching and shifting the first token of a command -/
 
-/-- what the state under a command does on the first token of the command -/
-structure BaseG (b : Nat) : Prop where
-  w : BaseW b
-  d : Tab.T.dflt b = none
-  a24 : Tab.T.action b 24 = some (.shift 29)
-  a25 : Tab.T.action b 25 = some (.shift 33)
-
-theorem baseG0 : BaseG 0 := ⟨base0.w, Tab.d0, Tab.a0w, Tab.a0A⟩
-theorem baseG61 : BaseG 61 := ⟨base61.w, Tab.d61, Tab.a61w, Tab.a61A⟩
-theorem baseG134 : BaseG 134 := ⟨⟨Tab.g134_63, Tab.g134_65⟩, Tab.d134, Tab.a134w, Tab.a134A⟩
-theorem baseG135 : BaseG 135 := ⟨⟨Tab.g135_63, Tab.g135_65⟩, Tab.d135, Tab.a135w, Tab.a135A⟩
-theorem baseG136 : BaseG 136 := ⟨⟨Tab.g136_63, Tab.g136_65⟩, Tab.d136, Tab.a136w, Tab.a136A⟩
-
-theorem Item.shiftB (it : Item) {b : Nat} (h : BaseG b) :
-    Tab.T.action b it.sym = some (.shift it.shB) := by
-  cases it
-  · exact h.a24
-  · exact h.a25
-
-/-- the states after an operator that takes a `newline_list` (`|`: 64/136, `&&`: 62/134,
-    `||`: 63/135) -/
-structure NLG (s1 s2 : Nat) : Prop where
-  d1 : Tab.T.dflt s1 = none
-  n1 : (s1 == 0) = false
-  r24 : Tab.T.action s1 24 = some (.reduce 167)
-  r25 : Tab.T.action s1 25 = some (.reduce 167)
-  g97 : Tab.T.goto s1 97 = some 81
-  g91 : Tab.T.goto s1 91 = some s2
-  n2 : (s2 == 0) = false
-  base : BaseG s2
-
-theorem nlg64 : NLG 64 136 := ⟨Tab.d64, rfl, Tab.a64w, Tab.a64A, Tab.g64_97, Tab.g64_91, rfl, baseG136⟩
-theorem nlg62 : NLG 62 134 := ⟨Tab.d62, rfl, Tab.a62w, Tab.a62A, Tab.g62_97, Tab.g62_91, rfl, baseG134⟩
-theorem nlg63 : NLG 63 135 := ⟨Tab.d63, rfl, Tab.a63w, Tab.a63A, Tab.g63_97, Tab.g63_91, rfl, baseG135⟩
-
-theorem Item.r167 (it : Item) {s1 s2 : Nat} (h : NLG s1 s2) :
-    Tab.T.action s1 it.sym = some (.reduce 167) := by
-  cases it
-  · exact h.r24
-  · exact h.r25
-theorem Item.r146 (it : Item) : Tab.T.action 81 it.sym = some (.reduce 146) := by
-  cases it
-  · exact Tab.a81w
-  · exact Tab.a81A
-
 section
 variable {np : NestedParse} {L : Str} {adn : Bool} {l : Local}
 
@@ -1109,12 +1533,16 @@ theorem g_first {P : Token → Local → Tape → Prop} {c : GCmd} {off : Nat} {
     (hcurh : histOK l.currentToken = true)
     (hL1 : L.drop off = c.lead ++ c.first.text ++ bb :: r') (hb : endChar bb = true)
     (hlen : L.length + 2 ≤ 1073741824)
-    (h : P (c.first.tok (off + c.lead.length)) (afterTok l (c.first.tok (off + c.lead.length)))
-      ⟨L, off + c.lead.length + c.first.text.length, adn⟩) :
+    (h : ∀ l'', POK l'' → l''.currentToken = c.first.tok (off + c.lead.length) →
+      P (c.first.tok (off + c.lead.length)) l'' ⟨L, off + c.lead.length + c.first.tlen, adn⟩) :
     Tot nextToken l ⟨L, off, adn⟩ P :=
-  tot_nextToken_item hl hc.first
+  tot_nextToken_elem hl hc.first
     (start_acc hst (l := shiftH l) ⟨hl.ps.cp, hl.ps.rl, hl.ps.ca⟩) hcurh hb hc.lead hL1 hlen
-    (fun _ => Item.nr_lookup hc.first hc.nr) h
+    (fun it e _ => by
+      have h1 := hc.first
+      have h2 := hc.nr
+      rw [e] at h1 h2
+      exact Item.nr_lookup h1 h2) h
 
 variable {P : Cfg SVal ⊕ Res SVal → Local → Tape → Prop} {Tp : Tape}
 
@@ -1141,20 +1569,21 @@ theorem base_first {st : Stack SVal} {b : Nat} (hst : topState st = b) (hB : Bas
     (hcurh : histOK l.currentToken = true)
     (hL1 : L.drop off = c.lead ++ c.first.text ++ bb :: r') (hb : endChar bb = true)
     (hlen : L.length + 2 ≤ 1073741824)
-    (hk : ∀ cons', Tot (engineLoop np f
+    (hk : ∀ cons' l', POK l' → l'.currentToken = c.first.tok (off + c.lead.length) →
+      Tot (engineLoop np f
       { stack := ⟨c.first.shB, .leaf c.first.sym, .tok (c.first.tok (off + c.lead.length))⟩ :: st,
-        la := none, nlShifted := nl, consumed := cons' })
-      (afterTok l (c.first.tok (off + c.lead.length)))
-      ⟨L, off + c.lead.length + c.first.text.length, adn⟩ P) :
+        la := none, nlShifted := nl, consumed := cons' }) l'
+      ⟨L, off + c.lead.length + c.first.tlen, adn⟩ P) :
     Tot (engineLoop np (f + 1) { stack := st, la := none, nlShifted := nl, consumed := cons })
       l ⟨L, off, adn⟩ P := by
   refine Tot.loop_step ?_
   refine R_fetch' (by rw [hst]; exact hB.d) ?_
   refine g_first hc hl hso hcurh hL1 hb hlen ?_
-  rw [Item.tok_sym]
+  intro l' hl' hcur'
+  rw [Elem.tok_sym]
   refine R_shiftG (by rw [hst]; exact hB.d) (by rw [hst]; exact c.first.shiftB hB)
     c.first.sym_ne_end c.first.sym_ne_nl ?_
-  exact hk _
+  exact hk _ l' hl' hcur'
 
 /-- after an operator that takes a `newline_list`: fetch the first token of the next command,
     reduce the empty `newline_list`, shift the token -/
@@ -1164,19 +1593,20 @@ theorem nl_first {s1 s2 : Nat} (hN : NLG s1 s2) {t1 : Tree} {v1 : SVal} {rest : 
     (hcurh : histOK l.currentToken = true)
     (hL1 : L.drop off = c.lead ++ c.first.text ++ bb :: r') (hb : endChar bb = true)
     (hlen : L.length + 2 ≤ 1073741824)
-    (hk : ∀ t2 cons', Tot (engineLoop np f
+    (hk : ∀ t2 cons' l', POK l' → l'.currentToken = c.first.tok (off + c.lead.length) →
+      Tot (engineLoop np f
       { stack := ⟨c.first.shB, .leaf c.first.sym, .tok (c.first.tok (off + c.lead.length))⟩ ::
           ⟨s2, t2, .none⟩ :: ⟨s1, t1, v1⟩ :: rest,
-        la := none, nlShifted := nl, consumed := cons' })
-      (afterTok l (c.first.tok (off + c.lead.length)))
-      ⟨L, off + c.lead.length + c.first.text.length, adn⟩ P) :
+        la := none, nlShifted := nl, consumed := cons' }) l'
+      ⟨L, off + c.lead.length + c.first.tlen, adn⟩ P) :
     Tot (engineLoop np (f + 3)
       { stack := ⟨s1, t1, v1⟩ :: rest, la := none, nlShifted := nl, consumed := cons })
       l ⟨L, off, adn⟩ P := by
   refine Tot.loop_step ?_
   refine R_fetch hN.d1 ?_
   refine g_first hc hl hso hcurh hL1 hb hlen ?_
-  rw [Item.tok_sym]
+  intro l' hl' hcur'
+  rw [Elem.tok_sym]
   refine R_reduce hN.d1 hN.n1 (c.first.r167 hN) Tab.p167 rfl hN.g97 Tab.f167 ?_
   refine act_empty ?_
   simp only [Bool.false_eq_true, if_false]
@@ -1186,7 +1616,7 @@ theorem nl_first {s1 s2 : Nat} (hN : NLG s1 s2) {t1 : Tree} {v1 : SVal} {rest : 
   simp only [Bool.false_eq_true, if_false]
   refine Tot.loop_step ?_
   refine R_shift hN.base.d hN.n2 (c.first.shiftB hN.base) ?_
-  exact hk _ _
+  exact hk _ _ l' hl' hcur'
 
 end
 
@@ -1202,14 +1632,36 @@ theorem Item.text_head {pos : Bool} {it : Item} (h : it.OK pos) :
   | nil => exact absurd ht hne
   | cons d r => exact ⟨d, r, rfl, hp d (by rw [ht]; exact List.mem_cons_self ..)⟩
 
+theorem Elem.text_head {pos : Bool} {el : Elem} (h : el.OK pos) :
+    ∃ d r, el.text = d :: r ∧ d ≠ ';' ∧ d ≠ '&' ∧ d ≠ '\\' ∧ d ≠ '|' := by
+  cases el with
+  | simple it =>
+    obtain ⟨d, r, hd, hw⟩ := Item.text_head h
+    exact ⟨d, r, hd, wc_ne' (by decide) hw, wc_ne' (by decide) hw, wc_ne' (by decide) hw,
+      wc_ne' (by decide) hw⟩
+  | redir o g2 w =>
+    cases o
+    · exact ⟨'>', g2 ++ w, by simp [Elem.text, ROp.txt], by decide, by decide, by decide, by decide⟩
+    · exact ⟨'<', g2 ++ w, by simp [Elem.text, ROp.txt], by decide, by decide, by decide, by decide⟩
+    · exact ⟨'>', '>' :: (g2 ++ w), by simp [Elem.text, ROp.txt], by decide, by decide, by decide, by decide⟩
+  | nredir n o g2 w =>
+    obtain ⟨hne, hp⟩ := h.1
+    cases n with
+    | nil => exact absurd rfl hne
+    | cons d r =>
+      have hw : wordChar d = true := by
+        have := digit_plain (hp d (List.mem_cons_self ..))
+        simp [wordChar, this]
+      exact ⟨d, r ++ o.txt ++ g2 ++ w, by simp [Elem.text], wc_ne' (by decide) hw,
+        wc_ne' (by decide) hw, wc_ne' (by decide) hw, wc_ne' (by decide) hw⟩
+
 theorem GCmd.text_head {c : GCmd} (hc : c.OK) :
     ∃ d r, c.text = d :: r ∧ d ≠ ';' ∧ d ≠ '&' ∧ d ≠ '\\' ∧ d ≠ '|' := by
   unfold GCmd.text
   cases hl : c.lead with
   | nil =>
-    obtain ⟨d, r, hd, hw⟩ := Item.text_head hc.first
-    exact ⟨d, r ++ (spellJ c.items ++ c.trail), by simp [hd], wc_ne' (by decide) hw,
-      wc_ne' (by decide) hw, wc_ne' (by decide) hw, wc_ne' (by decide) hw⟩
+    obtain ⟨d, r, hd, h1, h2, h3, h4⟩ := Elem.text_head hc.first
+    exact ⟨d, r ++ (spellJ c.items ++ c.trail), by simp [hd], h1, h2, h3, h4⟩
   | cons d r =>
     have hd : shellblank d = true := hc.lead d (by rw [hl]; exact List.mem_cons_self ..)
     refine ⟨d, r ++ (c.first.text ++ (spellJ c.items ++ c.trail)), by simp, ?_, ?_, blank_ne_bs hd, ?_⟩
@@ -1227,14 +1679,9 @@ theorem GCmd.endPos_shift (c : GCmd) (k off : Nat) : c.endPos (off + k) = c.endP
   rw [endJ_eq, endJ_eq]; omega
 
 theorem GCmd.drop_text {L : Str} {c : GCmd} {X : Str} {off : Nat} (h : L.drop off = c.text ++ X) :
-    L.drop (off + c.lead.length + c.first.text.length) = spellJ c.items ++ (c.trail ++ X) := by
-  have := congrArg (List.drop (c.lead.length + c.first.text.length)) h
-  rw [List.drop_drop] at this
-  rw [Nat.add_assoc, this]
-  have e : c.text ++ X = (c.lead ++ c.first.text) ++ (spellJ c.items ++ (c.trail ++ X)) := by
-    simp [GCmd.text]
-  rw [e]
-  exact List.drop_left' (by simp)
+    L.drop (off + c.lead.length + c.first.tlen) =
+      c.first.rest ++ (spellJ c.items ++ (c.trail ++ X)) :=
+  drop_into (p := off) (g := c.lead) (el' := c.first) (by rw [h]; simp [GCmd.text])
 
 theorem GCmd.drop_text_end {L : Str} {c : GCmd} {X : Str} {off : Nat} (h : L.drop off = c.text ++ X) :
     L.drop (c.endPos off) = c.trail ++ X := by
@@ -1262,6 +1709,16 @@ theorem Elem.text_noNL {pos : Bool} {el : Elem} (h : el.OK pos) : ∀ c ∈ el.t
       have := h.1 _ hc
       revert this; decide
     · exact wc_ne_nl (h.2.2 c hc)
+  | nredir n o g2 w =>
+    simp only [Elem.text, List.mem_append] at hc
+    rcases hc with ((hc | hc) | hc) | hc
+    · have := digit_plain (h.1.2 c hc)
+      exact plain_ne' (by decide) this
+    · intro hn; subst hn; cases o <;> simp [ROp.txt] at hc
+    · intro hn; subst hn
+      have := h.2.1 _ hc
+      revert this; decide
+    · exact wc_ne_nl (h.2.2.2 c hc)
 
 theorem spellJ_noNL : ∀ (items : List (Str × Elem)) (pos : Bool), ItemsJ pos items →
     ∀ c ∈ spellJ items, c ≠ '\n'
@@ -1283,7 +1740,7 @@ theorem GCmd.text_noNL {c : GCmd} (hc : c.OK) : ∀ x ∈ c.text, x ≠ '\n' := 
   · intro h; subst h
     have := hc.lead _ hx
     revert this; decide
-  · exact wc_ne_nl ((Item.gen hc.first).2 x hx)
+  · exact Elem.text_noNL hc.first x hx
   · exact spellJ_noNL c.items _ hc.items x hx
   · intro h; subst h
     have := hc.trail _ hx
@@ -1299,6 +1756,11 @@ theorem Elem.cost_le {pos : Bool} {el : Elem} (h : el.OK pos) : el.cost + 1 ≤ 
     have h1 := o.txt_pos
     have h2 : 0 < w.length := List.length_pos_iff.mpr h.2.1
     simp only [Elem.cost, Elem.text, List.length_append]; omega
+  | nredir n o g2 w =>
+    have h1 := o.txt_pos
+    have h2 : 0 < w.length := List.length_pos_iff.mpr h.2.2.1
+    have h3 : 0 < n.length := List.length_pos_iff.mpr h.1.1
+    simp only [Elem.cost, Elem.text, List.length_append]; omega
 
 theorem icost_le : ∀ (items : List (Str × Elem)) (pos : Bool), ItemsJ pos items →
     icost items ≤ 3 * (spellJ items).length
@@ -1312,12 +1774,13 @@ theorem icost_le : ∀ (items : List (Str × Elem)) (pos : Bool), ItemsJ pos ite
 
 theorem GCmd.cost_le {c : GCmd} (hc : c.OK) : c.cost + 3 ≤ 3 * c.text.length := by
   have h1 := icost_le c.items _ hc.items
-  have h2 := Item.text_pos hc.first
+  have h2 := (Elem.cost_le hc.first).1
+  have h3 := c.first.cost_ge
   simp only [GCmd.cost, GCmd.text, List.length_append]
   omega
 
 theorem GCmd.text_pos {c : GCmd} (hc : c.OK) : 0 < c.text.length := by
-  have h2 := Item.text_pos hc.first
+  have h2 := Elem.text_pos hc.first
   simp only [GCmd.text, List.length_append]; omega
 
 end Bashlex.C02
